@@ -448,6 +448,25 @@ pub fn run(ctx: &Ctx) -> Outcome {
         with_target(c.w, c.h, |dt| run_one(&c, want, st, dt))
     });
 
+    if ctx.quick() && ctx.scale_div == 1 {
+        // a slice of the triangle space that the thorough tier enumerates completely (every 97th case)
+        let g: u64 = 17;
+        let pts = g * g;
+        let total = pts * pts * pts * 2;
+        run_cases(ctx, &mut out, SubSpec { name: "triangles_2x2_every_97th", cases: total / 97, exhaustive: false, max_secs: 60. }, |j, want, st| {
+            let i = j * 97 + (ctx.seed % 97);
+            let aa = i % 2 == 0;
+            let mut k = i / 2;
+            let mut p = [(0i64, 0i64); 3];
+            for v in p.iter_mut() {
+                let q = k % pts;
+                k /= pts;
+                *v = ((q % g) as i64 - 4, (q / g) as i64 - 4);
+            }
+            let c = Case { w: 2, h: 2, ops: vec![QOp::Move(p[0].0, p[0].1), QOp::Line(p[1].0, p[1].1), QOp::Line(p[2].0, p[2].1)], evenodd: (i / 2) % 3 == 0, aa };
+            with_target(2, 2, |dt| run_one(&c, want, st, dt))
+        });
+    }
     if !ctx.quick() && ctx.scale_div == 1 {
         // every triangle with vertices on the quarter grid of [-1,3]^2 on a 2x2 surface, both AA modes
         let g: u64 = 17; // -4..=12 quarter units
